@@ -284,10 +284,13 @@ def make_adapter(kind, lines, is_async):
 
 
 # ----------------------------------------------------------------------------------- watchers
+# WatcherEx + WatcherUpdatable callbacks (a callback the code under test never looks up is simply unused)
 EX_CALLBACKS = ["update_for_add_policy", "update_for_remove_policy", "update_for_remove_filtered_policy",
-                "update_for_save_policy", "update_for_add_policies", "update_for_remove_policies"]
+                "update_for_save_policy", "update_for_add_policies", "update_for_remove_policies",
+                "update_for_update_policy", "update_for_update_policies"]
 WATCHER_KINDS = dict(none=None, plain=[], ex=EX_CALLBACKS,
-                     ex_partial=["update_for_add_policy", "update_for_remove_policies", "update_for_save_policy"])
+                     ex_partial=["update_for_add_policy", "update_for_remove_policies", "update_for_save_policy",
+                                 "update_for_update_policy"])
 
 
 def _jsonable(x):
